@@ -262,3 +262,20 @@ impl TopicCleanTracker {
         self.store.persist_updates(&snapshot)
     }
 }
+
+impl Drop for TopicCleanTracker {
+    /// Write out marker changes the background persister has not reached yet, so that a clean
+    /// shutdown right after `mark_topic_*` / an append does not lose them.
+    fn drop(&mut self) {
+        let snapshot: Vec<(String, CleanMarkerRecord)> = match self.states.read() {
+            Ok(guard) => guard
+                .iter()
+                .map(|(topic, state)| (topic.clone(), state.snapshot()))
+                .collect(),
+            Err(_) => return,
+        };
+        if let Err(err) = self.store.persist_updates(&snapshot) {
+            debug_print!("[clean] persist on drop failed: {}", err);
+        }
+    }
+}
